@@ -336,6 +336,42 @@ NEGATIVE = [
     ("vec_shared_ref_cloned_on_another_thread", """
     let a = Bump::new(); let v = bumpalo::vec![in &a; 1u8, 2, 3]; let r = &v;
     std::thread::scope(|s| { s.spawn(move || { let c = r.clone(); touch(&c); }); touch(a.alloc(1u8)); });"""),
+    # a view into a collection (Drain, Splice, DrainFilter, slices, iterators, str views) borrows the
+    # collection for as long as it lives: using, moving or dropping the collection meanwhile is rejected
+    ("vec_pushed_while_drain_alive", """
+    let a = Bump::new(); let mut v = bumpalo::vec![in &a; 1u8, 2, 3]; let d = v.drain(..); v.push(4); touch(&d);"""),
+    ("vec_dropped_while_drain_alive", """
+    let a = Bump::new(); let mut v = bumpalo::vec![in &a; 1u8, 2, 3]; let d = v.drain(1..); drop(v); touch(&d);"""),
+    ("vec_read_while_drain_alive", """
+    let a = Bump::new(); let mut v = bumpalo::vec![in &a; 1u8, 2, 3]; let d = v.drain(..2); touch(&v.len()); touch(&d);"""),
+    ("vec_pushed_while_drain_filter_alive", """
+    let a = Bump::new(); let mut v = bumpalo::vec![in &a; 1u8, 2, 3]; let d = v.drain_filter(|x| *x > 1); v.push(4); touch(&d);"""),
+    ("vec_pushed_while_splice_alive", """
+    let a = Bump::new(); let mut v = bumpalo::vec![in &a; 1u8, 2, 3]; let d = v.splice(0..1, std::vec![7u8]); v.push(4); touch(&d);"""),
+    ("vec_pushed_while_slice_alive", """
+    let a = Bump::new(); let mut v = bumpalo::vec![in &a; 1u8, 2, 3]; let s = v.as_slice(); v.push(4); touch(&s);"""),
+    ("vec_pushed_while_mut_slice_alive", """
+    let a = Bump::new(); let mut v = bumpalo::vec![in &a; 1u8, 2, 3]; let s = v.as_mut_slice(); v.push(4); touch(&s);"""),
+    ("vec_pushed_while_iter_alive", """
+    let a = Bump::new(); let mut v = bumpalo::vec![in &a; 1u8, 2, 3]; let it = v.iter(); v.push(4); touch(&it);"""),
+    ("vec_cleared_while_iter_mut_alive", """
+    let a = Bump::new(); let mut v = bumpalo::vec![in &a; 1u8, 2, 3]; let it = v.iter_mut(); v.clear(); touch(&it);"""),
+    ("vec_moved_while_element_borrowed", """
+    let a = Bump::new(); let mut v = bumpalo::vec![in &a; 1u8, 2, 3]; let e = &mut v[0]; let w = v; touch(&e); touch(&w);"""),
+    ("string_pushed_while_drain_alive", """
+    let a = Bump::new(); let mut v = BString::from_str_in("abc", &a); let d = v.drain(..1); v.push('x'); touch(&d);"""),
+    ("string_dropped_while_drain_alive", """
+    let a = Bump::new(); let mut v = BString::from_str_in("abc", &a); let d = v.drain(..); drop(v); touch(&d);"""),
+    ("string_pushed_while_str_alive", """
+    let a = Bump::new(); let mut v = BString::from_str_in("abc", &a); let s = v.as_str(); v.push('x'); touch(&s);"""),
+    ("string_pushed_while_chars_alive", """
+    let a = Bump::new(); let mut v = BString::from_str_in("abc", &a); let s = v.chars(); v.push('x'); touch(&s);"""),
+    ("string_cleared_while_mut_str_alive", """
+    let a = Bump::new(); let mut v = BString::from_str_in("abc", &a); let s = v.as_mut_str(); v.clear(); touch(&s);"""),
+    ("box_dropped_while_deref_alive", """
+    let a = Bump::new(); let b = BBox::new_in(5u8, &a); let r = &*b; drop(b); touch(&r);"""),
+    ("box_moved_while_mut_deref_alive", """
+    let a = Bump::new(); let mut b = BBox::new_in(5u8, &a); let r = &mut *b; let c = b; touch(&r); touch(&c);"""),
     ("arena_moved_while_borrowed", """
     let a = Bump::new(); let x = a.alloc(1u8); let b = a; touch(&x); touch(&b);"""),
     ("arena_moved_into_box_while_borrowed", """
